@@ -226,6 +226,35 @@ def run(tw, tier, seed, only=None):
                 n = 0
             nontriv += 1 if n else 0
             cases += 1
+    # the wildcard extension under proof, natively on small graphs: gapped / shuffled substrate ids, partial maps, tuple-valued bond orders
+    from synkit.Graph.utils import add_wildcard_subgraph_for_unmapped
+    K_WILD = "synkit/Graph/utils.py::add_wildcard_subgraph_for_unmapped"
+    if K_WILD in tw.functions:
+        for trial in range(40 if tier == "quick" else 400):
+            n = rng.randint(1, 5)
+            ids = rng.sample(range(0, 12), n)
+            G = nx.Graph()
+            for i in ids:
+                G.add_node(i, element=rng.choice("CNO"), charge=0, atom_map=i)
+            for a, b in itertools.combinations(ids, 2):
+                if rng.random() < 0.4:
+                    G.add_edge(a, b, order=rng.choice([1.0, 2.0]))
+            L = nx.Graph()
+            ln = rng.randint(1, 5)
+            for j in range(1, ln + 1):
+                L.add_node(j, element=rng.choice("CNO"), charge=0)
+            for a, b in itertools.combinations(range(1, ln + 1), 2):
+                if rng.random() < 0.5:
+                    L.add_edge(a, b, order=rng.choice([(1.0, 2.0), (0, 1.0), 1.0]))
+            mapped = rng.sample(range(1, ln + 1), rng.randint(0, min(ln, n)))
+            mapping = dict(zip(mapped, rng.sample(ids, len(mapped))))
+            before = (sorted(G.nodes(data=True), key=repr).__repr__(), sorted(G.edges(data=True), key=repr).__repr__())
+            out, v = tw.check_call(K_WILD, lambda G, L, mapping, edge_keys, inplace: add_wildcard_subgraph_for_unmapped(G, L, mapping, edge_keys, inplace),
+                                   dict(G=G, L=L, mapping=dict(mapping), edge_keys=["order"], inplace=False))
+            cases += 1
+            if v or out[0] != "return" or (sorted(G.nodes(data=True), key=repr).__repr__(), sorted(G.edges(data=True), key=repr).__repr__()) != before:
+                fails.append({"function": "add_wildcard_subgraph_for_unmapped", "violations": list(v) or ["raised / modified its input: %s %s" % (out[0], out[1] if out[0] != "return" else "")],
+                              "ids": ids, "mapping": mapping, "tags": {"clause": "wildcard-extension"}})
     # a template string used forwards and then backwards in one process (lazily cached state must not leak between directions)
     for t in TEMPLATES[:4]:
         prod = t.split(">>")[1]
